@@ -325,6 +325,9 @@ func (p *Program) discharge(rep *FuncReport, budget int, workers int) {
 		go func() {
 			defer wg.Done()
 			defer func() { <-sem }()
+			if ob.pre {
+				return
+			}
 			r := x.solveObligation(ob.node, budget)
 			ob.result = r
 			ob.status = r.Status
